@@ -478,9 +478,9 @@ func (e *engine) sectionKeysets(pool *kslib.Pool, seed uint64) {
 						}
 						v, err := jwt.NewVerifier(got)
 						if err != nil {
-							return "material=" + handleHex(got) + "|verifier=err"
+							return "material=" + handleHexIDs(got, false) + "|verifier=err"
 						}
-						return "material=" + handleHex(got) + "|" + jwtCross("jwtsigpub", v, signer)
+						return "material=" + handleHexIDs(got, false) + "|" + jwtCross("jwtsigpub", v, signer)
 					}}, nil
 				}})
 				e.run(spec{api: "jwt.JWKSetFromPublicKeysetHandle", det: true, mk: func() (*inst, error) {
